@@ -226,7 +226,7 @@ def run_time_representations(ctx):
 
 def run_wide(ctx, flavors):
     """shapes whose *size* crosses an encoding boundary: a union with 130 alternatives (tags >= 128 need two varint bytes), also nullable
-    (tag shifted by one), as a step, as stream items and as vector elements"""
+    (tag shifted by one), as a step, as stream items and as vector elements; through the generated C++ and the generated Python"""
     recs = [Rec("W%d" % i, [("v", P("int32"))]) for i in range(130)]
     wide = U(tuple((None, N("W%d" % i)) for i in range(130)))
     widen = U(tuple((None, N("W%d" % i)) for i in range(129)), True)
@@ -243,7 +243,7 @@ def run_wide(ctx, flavors):
         vals = [uv(first, 7), [uv(i, -i) for i in picks], [uv(i, i * 3) for i in reversed(picks)],
                 (None if k == 0 else uv(min(first, 128), 9)), [None] + [uv(i, i) for i in picks if i < 129], 200 + k]
         data = c.encode_stream(proto, sch, vals)
-        for ep in [rt.CppEndpoint(m, fl) for fl in flavors]:
+        for ep in [rt.CppEndpoint(m, fl) for fl in flavors] + [rt.PyEndpoint(m), rt.PyEndpoint(m, mode="list")]:
             r = ep.copy("WideP", "bin", "bin", data)
             ctx.ev()
             ctx.count("wide." + ep.name)
